@@ -8,7 +8,7 @@ From Coq Require Import Sorting.Permutation Sorting.Sorted.
 From Coq Require Import Strings.Byte.
 Require Import CU.model.Prim CU.model.Types CU.model.Unicode CU.model.Codec CU.model.Card CU.model.Dates CU.model.Block CU.model.Vbs CU.model.Iso CU.model.Ipm CU.model.Tools.
 Require Import CU.spec.FramingSpec CU.spec.IsoSpec.
-Require Import CU.proofs.NumProofs CU.proofs.PdsProofs CU.proofs.BlockProofs CU.proofs.VbsProofs CU.proofs.IsoRoundtrip CU.proofs.IpmProofs.
+Require Import CU.proofs.NumProofs CU.proofs.DatesIso CU.proofs.PdsProofs CU.proofs.BlockProofs CU.proofs.VbsProofs CU.proofs.IsoRoundtrip CU.proofs.IpmProofs.
 Import ListNotations.
 Open Scope nat_scope.
 
@@ -67,6 +67,16 @@ Proof.
   repeat match type of E with (_ && _) = true => apply andb_true_iff in E; destruct E as [? E] end.
   unfold iso_of. cbn [dt_Y dt_m dt_d dt_H dt_M dt_S].
   rewrite cs_digs4 by assumption. rewrite !cs_digs2 by assumption. reflexivity.
+Qed.
+
+(* whatever accepted spelling a date-time cell is given in, the cell written back (str(datetime)) reads as the same
+   date-time, in the canonical reading and therefore in any *)
+Lemma c20_date_spellings : forall s d, parse_iso_any s = Some d ->
+  parse_iso (iso_of d) = Some d /\ parse_iso_any (iso_of d) = Some d.
+Proof.
+  intros s d H. destruct (parse_iso_any_sound s d H) as [c [_ Hc]].
+  assert (E : parse_iso (iso_of d) = Some d) by (rewrite (c20_date_cell c d Hc); exact Hc).
+  split; [exact E|]. apply parse_iso_any_canonical. exact E.
 Qed.
 
 (* ====================================================================== the domain of C20 *)
@@ -307,7 +317,7 @@ Proof.
   intros c s. unfold pytype_to_string, cs_native. destruct (f_ptype c); try reflexivity.
   - destruct (f_len c) as [w|]; [|destruct (py_int s); reflexivity].
     destruct (py_int s) as [z|] eqn:E; [reflexivity|]. rewrite E. reflexivity.
-  - destruct (parse_iso s) as [d|] eqn:E; [reflexivity|]. rewrite E. reflexivity.
+  - destruct (parse_iso s) as [d|] eqn:E; [|reflexivity]. rewrite (parse_iso_any_canonical s d E). reflexivity.
 Qed.
 
 Lemma cs_fti_native : forall c s cd, field_to_iso c (VStr s) cd = field_to_iso c (cs_native c s) cd.
